@@ -267,13 +267,16 @@ class ClusterSuite(Suite):
         now = 1000
         acts = []
         busy_p = rng.choice([0.0, 0.0, 0.2])
+        # slow proxies: in some schedules the handshake requests stay queued for long (hanging XML-RPCs), so that
+        # they are served across an invalidation and a new CHECKING period of their target
+        slow_hs = rng.random() < 0.3
         while len(acts) < n_acts:
             enabled = []
             for i in members:
                 if not cl.up[i]:
                     continue
                 enabled.append(('tick', i))
-                if cl.pending[i]:
+                if cl.pending[i] and (not slow_hs or rng.random() < 0.08):
                     enabled += [('hs', i)] * 3
                 if cl.inbox[i]:
                     enabled += [('notify', i)] * 3
@@ -301,10 +304,11 @@ class ClusterSuite(Suite):
                     a = ('ATick', ch[1], now, self.node_suite.gen_orcs(rng, busy_p))
                 elif ch[0] == 'hs':
                     now += 1     # the proxy thread reads the clock after the main thread has entered CHECKING
-                    if rng.random() < 0.25:
+                    if rng.random() < (0.7 if slow_hs else 0.25):
                         # a slow handshake: it started some time ago (possibly before a new CHECKING period)
                         # (never before the request was queued)
-                        ts = max(now - rng.choice([1, 4, 8, 20, 45]), int(cl.pending_ts[ch[1]][0]) + 1)
+                        t1 = int(cl.pending_ts[ch[1]][0]) + 1
+                        ts = t1 if slow_hs and rng.random() < 0.5 else max(now - rng.choice([1, 4, 8, 20, 45]), t1)
                         a = ('AHandshakeLate', ch[1], ts, now)
                     else:
                         a = ('AHandshake', ch[1], now)
